@@ -425,6 +425,9 @@ Inductive mstep :=
 | MForeign     (* acquisition of another mutex of the service (builderBidMu in BuilderBid), outside executionConfigMu *)
 | MRLock | MRUnlock | MLock | MUnlock
 | MGate        (* v2 ProposerConfig asks the account for its name: the harness can hold the request here, inside the read lock *)
+| MRelay       (* the registrations are handed to the relays (submitRelayRegistrations: one network round trip per relay, waited
+                  for): the harness's relay can sit on the POST and so hold the request here.  A wait for something foreign
+                  ([OBlock]): [wf_prog] accepts it only where the lock is not held *)
 | MRead        (* resolve the settings from s.executionConfig *)
 | MBranchErr   (* pre-6cf77a3 auctionBlock: "if err != nil { return }" before the outer RUnlock *)
 | MRegRead     (* registration round: reads s.executionConfig (through currentExecutionConfig, under the read lock, since the C17 repair) *)
@@ -435,7 +438,7 @@ Inductive mstep :=
 Definition op_of_mstep (m : mstep) : op :=
   match m with
   | MRLock => ORLock | MRUnlock => ORUnlock | MLock => OLock | MUnlock => OUnlock
-  | MForeign => OBlock
+  | MForeign | MRelay => OBlock
   | _ => OSkip
   end.
 
@@ -449,7 +452,7 @@ Definition program (pre_fix : bool) (sp : spawn) : list mstep :=
       if pre_fix
       then [MRLock; MRLock; MGate; MRead; MRUnlock; MBranchErr; MRUnlock; MNop]
       else [MRLock; MGate; MRead; MRUnlock]                      (* auctionBlock -> ProposerConfig *)
-  | KReg => [MRLock; MRegRead; MRUnlock; MRLock; MRegRead; MRUnlock]   (* currentExecutionConfig() twice: nil test, then the round's snapshot *)
+  | KReg => [MRLock; MRegRead; MRUnlock; MRLock; MRegRead; MRUnlock; MRelay]   (* currentExecutionConfig() twice: nil test, then the round's snapshot; submit *)
   | KRefresh =>
       match rf_acc (sp_ref sp) with
       | AccSome => [MRLock; MStart; MRUnlock; MObtain; MLock; MWrite; MUnlock]
@@ -458,7 +461,7 @@ Definition program (pre_fix : bool) (sp : spawn) : list mstep :=
   (* without an account nobody is asked for a name: no MGate (setAccountName returns at once) *)
   | KLookupNA => [MRLock; MRead; MRUnlock]
   | KBid => [MForeign; MRLock; MRead; MRUnlock; MNop]            (* builderBidMu.Lock(); ...; deferred Unlock *)
-  | KFwd => [MNop; MRLock; MRead; MRUnlock; MNop]                (* controlledValidatorsMu (read, released); lookup; submit *)
+  | KFwd => [MNop; MRLock; MRead; MRUnlock; MRelay]              (* controlledValidatorsMu (read, released); lookup; submit *)
   | KUnblind => [MNop; MRLock; MRead; MRUnlock; MNop]            (* validators provider; lookup; providers *)
   end.
 
@@ -504,6 +507,9 @@ Inductive cmd :=
 | Spawn (sp : spawn)      (* start a request in its own goroutine; it is thread number (spawns so far) *)
 | Release (k : nat).      (* open the gate of thread k *)
 
+(* the validating accounts of a registration round (harness: validators 1..4) *)
+Definition reg_validators : list N := [1; 2; 3; 4]%N.
+
 Record tinfo := { ti_sp : spawn; ti_open : bool; ti_local : cfgstate; ti_res : result }.
 
 Record xstate := { x_sys : sys; x_cfg : cfgstate; x_info : list tinfo }.
@@ -526,12 +532,30 @@ Section Scenario.
   Definition gate_closed (x : xstate) (ti : tinfo) : bool :=
     sp_gate (ti_sp ti) && negb (ti_open ti) && match x_cfg x with Some _ => true | None => false end.
 
+  (* does the request have anything to hand to a relay?  A forwarded registration: when its settings were resolved and
+     name a relay (answer [RDone]); a registration round: when the configuration it works from names a relay and resolves
+     at least one of the validating accounts (the harness's accounts provider: validators 1..4) *)
+  Definition hands_to_relay (ti : tinfo) : bool :=
+    match sp_kind (ti_sp ti) with
+    | KFwd => match ti_res ti with RDone => true | _ => false end
+    | KReg => match ti_local ti with
+              | Some d => d_relay d && existsb (fun v => negb (is_bad d v)) reg_validators
+              | None => false
+              end
+    | _ => false
+    end.
+
+  (* the relay sits on the POST (harness: gated registration request) until the gate is opened *)
+  Definition relay_closed (ti : tinfo) : bool :=
+    sp_gate (ti_sp ti) && negb (ti_open ti) && hands_to_relay ti.
+
   Definition data_action (m : mstep) (cfg : cfgstate) (ti : tinfo) : cfgstate * tinfo :=
     match m with
     | MRead =>
         let r := answer_of (sp_kind (ti_sp ti)) cfg (sp_v (ti_sp ti)) in
         (cfg, {| ti_sp := ti_sp ti; ti_open := ti_open ti; ti_local := ti_local ti; ti_res := r |})
     | MStart => (cfg, {| ti_sp := ti_sp ti; ti_open := ti_open ti; ti_local := cfg; ti_res := ti_res ti |})
+    | MRegRead => (cfg, {| ti_sp := ti_sp ti; ti_open := ti_open ti; ti_local := cfg; ti_res := ti_res ti |})
     | MObtain =>
         (cfg, {| ti_sp := ti_sp ti; ti_open := ti_open ti;
                  ti_local := fetch_after_accounts url_set (ti_local ti) cfg (rf_fetch (sp_ref (ti_sp ti)));
@@ -553,7 +577,7 @@ Section Scenario.
             end
         | PAt pc =>
             let m := nth pc mprog MNop in
-            let blocked := match m with MGate => gate_closed x ti | _ => false end in
+            let blocked := match m with MGate => gate_closed x ti | MRelay => relay_closed ti | _ => false end in
             if blocked then None else
               let c := match m, ti_res ti with MBranchErr, RErr => 1%nat | _, _ => 0%nat end in
               match cstep g (x_sys x) (i, c) with
